@@ -196,3 +196,13 @@ Definition mark_h (i : N) : vroutine N unit :=
   mkVR [Update 0 (L1 (fun m => Marks.m_mark m i)) [0]] [0] [] (fun _ => tt).
 Definition unmark_h (i : N) : vroutine N unit :=
   mkVR [Update 0 (L1 (fun m => Marks.m_unmark m i)) [0]] [0] [] (fun _ => tt).
+
+(* ====================================================================== *)
+(* 10. every other read-only routine with fresh outputs (routines 6, 8, 9, 10, 11 of the  *)
+(*     table: least squares, SCC, Subgraph*, traversals, dominators, SimplifyMulti,       *)
+(*     MakeBiGraph, Dot, the slice statistics, t-tests, dist methods): k argument arrays, *)
+(*     one fresh result array computed by ANY function m of their contents; the result of *)
+(*     type R is read off that array by [out]                                             *)
+(* ====================================================================== *)
+Definition pure_h {A R : Type} (k : nat) (m : list (arr A) -> arr A) (out : arr A -> R) : vroutine A R :=
+  mkVR [Compute (10 + k) m (seq 0 k)] (seq 0 k) [10 + k] (fun l => out (a0 l)).
